@@ -248,6 +248,23 @@ theorem newkeys_flush_prefix_witness :
     ((sendNewkeys e).out.map fun w => w.pkt.type) = [21, 2, 94] ∧ (sendNewkeys e).deferred = [] := by
   decide
 
+/-! ### what the model says about `close()` during an exchange (known finding F147) -/
+
+/-- **Mechanism of the known finding F147**, stated so that it is not mistaken for something the theorems exclude:
+    MSG_DISCONNECT (1) is never deferred, so a `disconnect()` / `close()` issued while an exchange is running writes
+    DISCONNECT at once and leaves the deferred packets where they are — the connection then goes away with them.
+    `deferred_fifo` and the pair theorems speak about connections that stay up; channel data written just before
+    `close()` during a re-exchange is lost on the real code (oracle `channel-data-dropped-by-close-during-exchange`),
+    while without a re-exchange it arrives. -/
+theorem disconnect_overtakes_deferred (e : Endpoint) (tag : Nat) (hk : e.kexComplete = false) :
+    (sendPacket e ⟨1, tag⟩).deferred = e.deferred ∧
+    (sendPacket e ⟨1, tag⟩).out = e.out ++ [⟨⟨1, tag⟩, e.sendEpoch, true⟩] := by
+  have hmd : mustDefer e 1 = false := by
+    simp [mustDefer, MSG_DEBUG, MSG_SERVICE_REQUEST, MSG_SERVICE_ACCEPT, MSG_KEX_LAST, MSG_USERAUTH_BANNER,
+      MSG_USERAUTH_LAST]
+  unfold sendPacket
+  simp [hk, hmd, emit, MSG_KEX_LAST]
+
 /-! ### no loss, duplication or reordering of what upper layers submit -/
 
 /-- message types `send_packet` may hold back during an exchange: everything that is not key exchange or
